@@ -1143,8 +1143,8 @@ class BuiltinsMixin(object):
             parts = []
             for i, piece in enumerate(pieces):
                 if piece:
-                    if piece[-1:].isdigit() or piece[:1].isdigit() and i > 0:
-                        raise Undecided("digits adjacent to a numeral placeholder")
+                    if (piece[-1:].isdigit() and i < len(keys)) or (piece[:1].isdigit() and i > 0):
+                        raise Undecided("digits adjacent to a numeral placeholder: %r of %r" % (piece, x))
                     parts.append(piece)
                 if i < len(keys):
                     if keys[i] not in holder:
